@@ -99,6 +99,15 @@ class Module:
                     del self.__dict__[registry][__name]
             object.__setattr__(self, __name, __value)
     
+    def __delattr__(self, __name: str) -> None:
+        """
+        Deleting an attribute removes the registration the name held
+        """
+        for registry in ('_parameters', '_submodules'):
+            if __name in self.__dict__.get(registry, ()):
+                del self.__dict__[registry][__name]
+        object.__delattr__(self, __name)
+    
     def parameters(self) -> list['Parameter']:
         """
         Returns a list of all parameters in the module
